@@ -38,6 +38,61 @@ pub(crate) fn owned_reader(sig: &Signature, impl_generics: Option<&Generics>) ->
     None
 }
 
+/// `reader: &mut (impl Read [+ Seek])`: index among the typed parameters, name, Seek?
+pub(crate) fn impl_reader(sig: &Signature) -> Option<(usize, String, bool)> {
+    let mut k = 0;
+    for a in &sig.inputs {
+        if let FnArg::Typed(t) = a {
+            if let Type::Reference(r) = &*t.ty {
+                let mut elem = &*r.elem;
+                while let Type::Paren(p) = elem {
+                    elem = &*p.elem;
+                }
+                if let (Some(_), Type::ImplTrait(it)) = (&r.mutability, elem) {
+                    let mut read = false;
+                    let mut seek = false;
+                    let mut other = false;
+                    for b in &it.bounds {
+                        match b {
+                            TypeParamBound::Trait(tb) => match path_last(&tb.path).as_str() {
+                                "Read" => read = true,
+                                "Seek" => seek = true,
+                                _ => other = true,
+                            },
+                            _ => other = true,
+                        }
+                    }
+                    if read && !other {
+                        if let Pat::Ident(id) = &*t.pat {
+                            return Some((k, id.ident.to_string(), seek));
+                        }
+                    }
+                }
+            }
+            k += 1;
+        }
+    }
+    None
+}
+
+/// Does the body perform `place.store(v)` (an `AtomicU64` cell of a shared structure)?
+struct HasStore {
+    found: bool,
+}
+impl<'ast> syn::visit::Visit<'ast> for HasStore {
+    fn visit_expr_method_call(&mut self, m: &'ast ExprMethodCall) {
+        if m.method == "store" && m.args.len() == 1 && matches!(&*m.receiver, Expr::Field(_)) {
+            self.found = true;
+        }
+        syn::visit::visit_expr_method_call(self, m);
+    }
+}
+pub(crate) fn has_store(b: &Block) -> bool {
+    let mut v = HasStore { found: false };
+    syn::visit::Visit::visit_block(&mut v, b);
+    v.found
+}
+
 /// Look-ahead for `let mut x = Vec::with_capacity(..)`: a structure literal of a registered structure with a
 /// field initialised by the bare local `x` fixes the type.
 struct FieldOf<'r> {
@@ -143,6 +198,41 @@ impl<'a> Tr<'a> {
             return Ok(None);
         }
         let name = m.method.to_string();
+        // `p.cell.store(v)`: `p` a `&Struct` parameter, `cell` a field the generated structure does not have
+        // (an `AtomicU64`): the effect is recorded in the function's list of stores
+        if name == "store" && m.args.len() == 1 && self.mode == Mode::R {
+            if let (Some(st), Expr::Field(f)) = (self.rstores.clone(), &*m.receiver) {
+                if let (Some(base), Member::Named(cell), Expr::Path(_)) = (path_ident(&f.base), &f.member, &*f.base) {
+                    let bt = self.vars.get(&base).cloned().unwrap_or_default();
+                    let sname = bt.strip_prefix("Gen.").unwrap_or("").to_string();
+                    let dropped = self.reg.struct_fields.get(&sname).map(|m| !m.contains_key(&cell.to_string())).unwrap_or(false);
+                    if dropped && !self.mut_vars.contains(&base) {
+                        self.expect = Some("UInt64".into());
+                        let v = self.expr(&m.args[0])?;
+                        self.emit(format!("{st} := {st} ++ [(\"{base}.{cell}\", {v})]"));
+                        return Ok(Some("()".into()));
+                    }
+                }
+            }
+            return Err("store into something other than an atomic cell of a parameter".into());
+        }
+        // `(reader as &mut dyn Read).take(n)`
+        if name == "take" && m.args.len() == 1 && self.mode == Mode::R {
+            let mut r = &*m.receiver;
+            loop {
+                match r {
+                    Expr::Paren(p) => r = &*p.expr,
+                    Expr::Cast(c) => r = &*c.expr,
+                    Expr::Reference(x) => r = &*x.expr,
+                    _ => break,
+                }
+            }
+            if matches!(r, Expr::Path(_)) && path_ident(r) == self.reader && self.reader.is_some() {
+                self.expect = Some("UInt64".into());
+                let n = self.expr(&m.args[0])?;
+                return Ok(Some(format!("(Rs.R.take {n})")));
+            }
+        }
         let rt = match self.type_of(&m.receiver) {
             Some(t) => t,
             None => return Ok(None),
